@@ -105,16 +105,20 @@ class NpProxy:
     def identity(self, n, **kw):
         return obj(_np.identity(n), self._mk)
 
+    def _like_shape(self, a, kw):
+        shp = kw.get("shape")
+        return _np.shape(a) if shp is None else shp
+
     def zeros_like(self, a, dtype=None, **kw):
-        return self.zeros(_np.shape(a))
+        return self.zeros(self._like_shape(a, kw))
 
     def empty_like(self, a, dtype=None, **kw):
         if dtype is object:
-            return _np.empty(_np.shape(a), dtype=object)
-        return self.empty(_np.shape(a))
+            return _np.empty(self._like_shape(a, kw), dtype=object)
+        return self.empty(self._like_shape(a, kw))
 
     def ones_like(self, a, dtype=None, **kw):
-        return self.ones(_np.shape(a))
+        return self.ones(self._like_shape(a, kw))
 
     def asarray(self, a, dtype=None, **kw):
         if dtype in (float, _np.float64) and _has_sym(a):
